@@ -188,6 +188,7 @@ var handleNames = [][]byte{
 	wireLabels([]byte("a-1"), []byte("x_y"), []byte("com")), wireLabels([]byte("n0"), []byte("t-t9"), []byte("org")),
 	// octets above 0x7f: a UTF-8 letter with an upper-case form (é / É differ in bit 5 of the second octet) and
 	// octets that are not UTF-8 at all — names are octet strings, only ASCII letters fold
+	wireLabels([]byte("z")),
 	wireLabels([]byte("caf\xc3\xa9"), []byte("com")), wireLabels([]byte("\xff\xfe"), []byte("x\x80y"), []byte("org")),
 }
 
@@ -211,6 +212,17 @@ func flipBit5(r *rand.Rand, n []byte) []byte {
 	o := append([]byte(nil), n...)
 	o[cand[r.Intn(len(cand))]] ^= 0x20
 	return o
+}
+
+// labelsOf: the labels of a wire name (without the terminating zero octet)
+func labelsOf(n []byte) [][]byte {
+	var out [][]byte
+	for i := 0; i < len(n); {
+		l := int(n[i])
+		out = append(out, n[i+1:i+1+l])
+		i += 1 + l
+	}
+	return out
 }
 
 // asciiLower: the DNS notion of lower case — octets 'A'..'Z' only (strings.ToLower would fold UTF-8 letters and
@@ -325,8 +337,18 @@ func genHandle(r *rand.Rand, thorough bool, emit func(c, cat string)) {
 		}
 		if r.Intn(6) == 0 { // a deep name under one of the entries (ip6.arpa-like: up to 40 short labels in front)
 			var deep []byte
-			for k := []int{1, 2, 5, 14, 15, 16, 17, 30, 40}[r.Intn(9)]; k > 0; k-- {
-				l := 1 + r.Intn(2)
+			depth := []int{1, 2, 5, 14, 15, 16, 17, 30, 40, 124, 125, 126, 127}[r.Intn(13)]
+			maxl := 2
+			if depth > 100 { // the deepest names there are: one-octet labels up to the 254-octet limit (127 labels in all)
+				maxl = 1
+				qname = wireLabels([]byte("z")) // under the one-octet entry: 126 more labels fit
+				depth -= len(labelsOf(qname))
+				for depth*2+len(qname) > 254 {
+					depth--
+				}
+			}
+			for k := depth; k > 0; k-- {
+				l := 1 + r.Intn(maxl)
 				deep = append(deep, byte(l))
 				for j := 0; j < l; j++ {
 					deep = append(deep, "0123456789abcdefXY"[r.Intn(18)])
